@@ -5,3 +5,4 @@ import PhyModel.Proofs.LikIso
 import PhyModel.Proofs.OrdersProofs6
 import PhyModel.Proofs.MapProofs
 import PhyModel.Proofs.CacheProofs
+import PhyModel.Props.C02
